@@ -23,91 +23,12 @@ import (
 	"pgregory.net/rapid"
 )
 
-type c18Msg struct {
-	Kind  string `json:"kind"` // ra rs ns na
-	RA    *vRA   `json:"ra,omitempty"`
-	From  string `json:"from"`
-	Zone  string `json:"zone,omitempty"`
-	AtNS  int64  `json:"at_ns"` // receipt time relative to the start
-	Extra []vOpt `json:"-"`
-}
-
 type c18Case struct {
 	Msgs       []c18Msg `json:"msgs"`
 	StartS     int64    `json:"start_unix_s"` // value path: wall clock at start
 	StartNS    int64    `json:"start_ns"`
 	RunPath    bool     `json:"run_path"`
 	ConsumerNS int64    `json:"consumer_ns,omitempty"` // run path: the OnMessage consumer is slow
-}
-
-type c18Model map[string]map[string]float64
-
-func (m c18Model) set(series, key string, v float64) {
-	if m[series] == nil {
-		m[series] = map[string]float64{}
-	}
-	m[series][key] = v
-}
-func (m c18Model) add(series, key string) {
-	if m[series] == nil {
-		m[series] = map[string]float64{}
-	}
-	m[series][key]++
-}
-
-func c18Apply(m c18Model, msg c18Msg, now time.Time, iface string) {
-	host := msg.From
-	b2f := func(b bool) float64 {
-		if b {
-			return 1
-		}
-		return 0
-	}
-	m.add(monReceived, fmt.Sprintf("interface=%s,host=%s,message=%s", iface, host, vkTypeName(msg.Kind)))
-	if msg.Kind != "ra" {
-		return
-	}
-	ra := msg.RA
-	rk := fmt.Sprintf("interface=%s,router=%s", iface, host)
-	m.set(monFlagManaged, rk, b2f(ra.M))
-	m.set(monFlagOther, rk, b2f(ra.O))
-	if ra.LifeS != 0 {
-		m.set(monDefaultRoute, rk, float64(now.Add(time.Duration(ra.LifeS)*time.Second).Unix()))
-	}
-	for _, o := range ra.Opts {
-		if o.Kind != "prefix" || o.RawLen > 128 {
-			continue // (how an option with an impossible prefix length is labelled is not prescribed)
-		}
-		pk := fmt.Sprintf("interface=%s,prefix=%s,router=%s", iface, o.Prefix, host)
-		m.set(monPrefixAutonomous, pk, b2f(o.Auto))
-		m.set(monPrefixOnLink, pk, b2f(o.OnLink))
-		m.set(monPrefixPreferred, pk, float64(now.Add(time.Duration(o.PrefS)*time.Second).Unix()))
-		m.set(monPrefixValid, pk, float64(now.Add(time.Duration(o.ValidS)*time.Second).Unix()))
-	}
-}
-
-var c18Series = []string{monReceived, monFlagManaged, monFlagOther, monDefaultRoute, monPrefixAutonomous, monPrefixOnLink, monPrefixPreferred, monPrefixValid}
-
-func c18Compare(model c18Model, got map[string]metricslite.Series, step int) error {
-	for _, s := range c18Series {
-		// samples labelled with something that is not a prefix come from options with an
-		// impossible prefix length (> 128): their labelling is not prescribed
-		gs := map[string]float64{}
-		for k, v := range got[s].Samples {
-			if i := strings.Index(k, "prefix="); i >= 0 {
-				p, _, _ := strings.Cut(k[i+len("prefix="):], ",")
-				if _, err := netip.ParsePrefix(p); err != nil {
-					continue
-				}
-			}
-			gs[k] = v
-		}
-		w, g := fmtSamples(model[s]), fmtSamples(gs)
-		if w != g {
-			return verifkit.Violf("C18/series-differs:"+s, "after message %d: %s\nwant %s\ngot  %s", step, s, w, g)
-		}
-	}
-	return nil
 }
 
 func c18Build(msg c18Msg) ndp.Message {
